@@ -129,6 +129,18 @@ pub assume_specification [ResourceClassEntitlements::resource_set] (e: &Resource
 pub assume_specification [ResourceClassEntitlements::not_after] (e: &ResourceClassEntitlements) -> (r: Time) ensures r == ent_na(*e);
 pub uninterp spec fn wants_raw(k: CertifiedKey, res: ResourceSet, na: Time) -> bool;
 pub open spec fn requested(reqs: Seq<(&RepoInfo, KeyIdentifier)>, k: KeyIdentifier) -> bool { exists |i: int| 0 <= i < reqs.len() && (#[trigger] reqs[i]).1 == k }
+/// the keys a certificate can be delivered to in this phase (process_received_cert accepts exactly these: the pending or staged key
+/// and the current key; NEVER the old key of a roll, whose certificate is awaiting revocation -- a request for it would be refused on
+/// delivery and the class dropped)
+pub open spec fn can_take_cert(ks: KeyState, k: KeyIdentifier) -> bool {
+    match ks {
+        KeyState::Pending(p) => k == p.key_id,
+        KeyState::Active(c) => k == c.key_id,
+        KeyState::RollPending(p, c) => k == p.key_id || k == c.key_id,
+        KeyState::RollNew(n, c) => k == n.key_id || k == c.key_id,
+        KeyState::RollOld(c, _o) => k == c.key_id,
+    }
+}
 /// what the (separately contracted: units c02_rcvd, c01_*) handlers for a certificate of the current / the first key return
 pub uninterp spec fn evs_current(rc: ResourceClass, key: CertifiedKey, c: ReceivedCert) -> Seq<CertAuthEvent>;
 pub uninterp spec fn evs_pending(rc: ResourceClass, c: ReceivedCert) -> Seq<CertAuthEvent>;
@@ -299,6 +311,7 @@ pub open spec fn key_neutral(ev: CertAuthEvent) -> bool {
                             && (self is RollPending && wants_raw(self->RollPending_1, ent_res(*entitlement), ent_na(*entitlement)) ==> requested(r@, self->RollPending_1.key_id))
                             && (self is RollNew && wants_raw(self->RollNew_1, ent_res(*entitlement), ent_na(*entitlement)) ==> requested(r@, self->RollNew_1.key_id))
                             && (self is RollOld && wants_raw(self->RollOld_0, ent_res(*entitlement), ent_na(*entitlement)) ==> requested(r@, self->RollOld_0.key_id))'''),
+                      ('requests_only_for_keys_that_can_take_a_certificate_never_the_old_key', 'forall |i: int| 0 <= i < r@.len() ==> can_take_cert(*self, (#[trigger] r@[i]).1)'),
                       ('no_request_without_cause', '''self is Active && !wants_raw(self->Active_0, ent_res(*entitlement), ent_na(*entitlement)) ==> r@.len() == 0'''),
                   ]),
         U.fn(KEYS, 'KeyState', 'knows_key', ensures=[('every_key_of_the_roll_is_our_own', 'r == own_key(*self, key_id)')]),
